@@ -110,7 +110,7 @@ func TestC20(t *testing.T) {
 		ID:   "C20",
 		Rule: "shipped tm, js, json and test parsers on inputs drawn from a corpus (all .tm/.tmerr/.json files of the repository, windows of the large ones, and every string constant of the parsers' own test tables with markers removed) with 0..4 mutations (delete span, insert dictionary piece, duplicate span, truncate, splice with another entry, replace byte); one case in eight is dictionary/byte soup; any entry point; the error handler continues (or stops at call 1..3). Checked: every event inside [0,len]; no two events partially overlap; a node strictly containing another is reported after it (empty nodes on a container's boundary are not 'strictly contained'); for tm and js the tree of ast.Parse has exactly the reported nodes plus the file root, children inside parents, siblings ordered and non-overlapping, and no reported node fits strictly between a non-empty node and its parent. Non-trivial: an input on which recovery happened and events were reported, or whose events nest at least 3 deep; distinct by (parser, input).",
 		Assume: []string{"the placement of empty nodes and of nodes with identical ranges is not asserted beyond containment and sibling order (the property's 'smallest container' is ambiguous there)"},
-		Quick:  40000, Thorough: 3000000,
+		Quick:  160000, Thorough: 3000000,
 		Gen:   spGen(nil),
 		Check: c20Check,
 	}
